@@ -354,6 +354,7 @@ func writeCorpus() {
 		"data.basm":   "%section code .romtext iomode:async\n\tentry _start\n_start:\n\trset r0, 1\n\tinc r0\n\tr2o r0, o0\n\tj _start\n%endsection\n\n%section consts .romdata\n\ttab db 0x01, 0x02, 0x03, 0x04, 0x05\n\tone db 0x2a\n%endsection\n\n%meta cpdef cpu romcode: code, romdata: consts\n%meta ioatt lo cp:cpu, index:0, type:output\n%meta ioatt lo cp:bm, index:0, type:output\n%meta bmdef global registersize:8\n",
 		"movs.basm":   "%section code .romtext iomode:async\n\tentry _start\n_start:\n\tmov r0, 3\n\tmov r1, 200\n\tmov r2, r0\n\tadd r2, r1\n\tmov o0, r2\n\tj _start\n%endsection\n\n%meta cpdef cpu romcode: code\n%meta ioatt lo cp:cpu, index:0, type:output\n%meta ioatt lo cp:bm, index:0, type:output\n%meta bmdef global registersize:8\n",
 		"tfrag.basm":  "%meta bmdef global registersize:8\n%fragment addk\n\trset r1, {{.Params.k}}\n\tadd r0, r1\n%endfragment\n%section alpha .romtext k:3\n\tentry _start\n_start:\n\ti2r r0, i0\n\tcall8s addk\n\tr2o r0, o0\n\tj _start\n%endsection\n%section beta .romtext k:5\n\tentry _start\n_start:\n\ti2r r0, i0\n\tcall8s addk\n\tr2o r0, o0\n\tj _start\n%endsection\n%section gamma .romtext k:9\n\tentry _start\n_start:\n\ti2r r0, i0\n\tcall8s addk\n\tr2o r0, o0\n\tj _start\n%endsection\n%meta cpdef cpa romcode:alpha\n%meta cpdef cpb romcode:beta\n%meta cpdef cpc romcode:gamma\n%meta ioatt l0 cp:bm, type:input, index:0\n%meta ioatt l0 cp:cpa, type:input, index:0\n%meta ioatt l1 cp:cpa, type:output, index:0\n%meta ioatt l1 cp:cpb, type:input, index:0\n%meta ioatt l2 cp:cpb, type:output, index:0\n%meta ioatt l2 cp:cpc, type:input, index:0\n%meta ioatt l3 cp:cpc, type:output, index:0\n%meta ioatt l3 cp:bm, type:output, index:0\n",
+		"multidata.basm": "%meta bmdef global registersize:8\n%section codea .romtext iomode:async\n\tentry _start\n_start:\n\tmov r0, rom:a1\n\tmov r1, rom:a2\n\tr2o r0, o0\n\tj _start\n%endsection\n%section dataa .romdata\n\ta0 db 0x01, 0x02\n\ta1 db 0x03\n\ta2 db 0x04, 0x05, 0x06\n%endsection\n%section codeb .romtext iomode:async\n\tentry _start\n_start:\n\tmov r1, rom:b1\n\tr2o r1, o0\n\tj _start\n%endsection\n%section datab .romdata\n\tb0 db 0x0a, 0x0b, 0x0c\n\tb1 db 0x0d\n%endsection\n%section codec .romtext iomode:async\n\tentry _start\n_start:\n\tmov r2, rom:c0\n\tr2o r2, o0\n\tj _start\n%endsection\n%section datac .romdata\n\tc0 db 0x11\n%endsection\n%meta cpdef cpa romcode:codea, romdata:dataa\n%meta cpdef cpb romcode:codeb, romdata:datab\n%meta cpdef cpc romcode:codec, romdata:datac\n%meta ioatt oa cp:cpa, type:output, index:0\n%meta ioatt oa cp:bm, type:output, index:0\n%meta ioatt ob cp:cpb, type:output, index:0\n%meta ioatt ob cp:bm, type:output, index:1\n%meta ioatt oc cp:cpc, type:output, index:0\n%meta ioatt oc cp:bm, type:output, index:2\n",
 		"helper.basm": "%meta bmdef global registersize:8\n%meta cpdef cpa romcode:mul\n%meta cpdef cpb romcode:plain\n\n%section mul .romtext\n\tentry _start\n_start:\n\trset r0, 3\n\trset r1, 5\n\tmultp r0, r1\n\taddp r0, r1\n\tj _start\n%endsection\n\n%section plain .romtext\n\tentry _start\n_start:\n\trset r0, 3\n\tmultp r0, r0\n\tinc r0\n\tj _start\n%endsection\n",
 		"t.go":        "package main\n\nimport (\n\t\"bondgo\"\n)\n\nfunc main() {\n\tvar out0 bondgo.Output\n\tvar a uint8\n\tvar b uint8\n\tout0 = bondgo.Make(bondgo.Output, 3)\n\ta = 1\n\tb = 2\n\ta = a + b\n\tbondgo.IOWrite(out0, a)\n}\n",
 		"cfg.json":    "{\"DataType\":\"float32\",\"Params\":{\"expprec\":\"10\"}}\n",
@@ -397,6 +398,7 @@ func main() {
 		{Name: "basm:romdata", Tool: "basm", Args: []string{"-o", "out.json", "data.basm"}, Inputs: []string{"data.basm"}, Outputs: []string{"out.json"}},
 		{Name: "basm:mov-chooser", Tool: "basm", Args: []string{"-chooser-min-word-size", "-o", "out.json", "movs.basm"}, Inputs: []string{"movs.basm"}, Outputs: []string{"out.json"}},
 		{Name: "basm:templated-fragment", Tool: "basm", Args: []string{"-o", "out.json", "tfrag.basm"}, Inputs: []string{"tfrag.basm"}, Outputs: []string{"out.json"}},
+		{Name: "basm:several-data-sections", Tool: "basm", Args: []string{"-o", "out.json", "multidata.basm"}, Inputs: []string{"multidata.basm"}, Outputs: []string{"out.json"}},
 		{Name: "basm:helper-module-opcodes", Tool: "basm", Args: []string{"-o", "out.json", "helper.basm"}, Inputs: []string{"helper.basm"}, Outputs: []string{"out.json"}},
 		{Name: "neuralbond:testsmall", Tool: "neuralbond", Args: []string{"-net-file", "net-testsmall.json", "-config-file", "cfg.json", "-neuron-lib-path", "/repo/library/neurons", "-save-basm", "nn.basm"}, Inputs: []string{"net-testsmall.json", "cfg.json"}, Outputs: []string{"nn.basm", "cfg.json"}},
 		{Name: "neuralbond:testsmall-fragment", Tool: "neuralbond", Args: []string{"-net-file", "net-testsmall.json", "-config-file", "cfg.json", "-neuron-lib-path", "/repo/library/neurons", "-operating-mode", "fragment", "-save-basm", "nn.basm"}, Inputs: []string{"net-testsmall.json", "cfg.json"}, Outputs: []string{"nn.basm", "cfg.json"}},
